@@ -708,7 +708,7 @@ def _parse_replacement_field(state: _ParserState) -> Union[str, ReplacementField
     arg_name_str = "".join(arg_name_chars)
     if not arg_name_str:
         arg_name = None
-    elif arg_name_str.isdigit():
+    elif arg_name_str.isdecimal():
         arg_name = int(arg_name_str)
     else:
         arg_name = arg_name_str
